@@ -147,8 +147,29 @@ Section C03.
       (forall (resp : option head) st, is_ok (remove_id ai) = false ->
          exists err, sync_ad_chain ai resp st = (Err err, st)).
   Proof. apply peer_id_never_empty_on_subscriber_path_proved. Qed.
+  (* The publisher under concurrency (SetRoot racing with head requests).  For EVERY schedule
+     of SetRoot calls, requests passing their critical section (PRead) and responses
+     (PServe): each response is the head signed for the root its request read -- it verifies,
+     names the publisher and is accepted by a client asking for the publisher; a request
+     that reads after a SetRoot returned (and before the next one) is answered for exactly
+     that root, never for an earlier one; without a root no head is served. *)
+  Theorem published_head_follows_set_root :
+    forall topic k evs i out,
+      In (i, out) (pub_run pub sign topic k evs (PubState None [])) ->
+      exists pre post, evs = pre ++ PRead i :: post /\
+        let r := root_after pre None in
+        out = serve_head r topic k /\
+        (forall c, r = Some c ->
+           exists sh, out = Some sh /\ sh_cid sh = c /\
+                      validate_head sh = Ok (peer_id (pub k)) /\
+                      get_head (Some (peer_id (pub k))) out = Ok c) /\
+        (r = None -> out = None) /\
+        (forall pre' r' mid, pre = pre' ++ PSetRoot r' :: mid ->
+           (forall r'', ~ In (PSetRoot r'') mid) -> r = r').
+  Proof. apply published_head_follows_set_root_proved; assumption. Qed.
 End C03.
 
+Print Assumptions published_head_follows_set_root.
 Print Assumptions payload_injective.
 Print Assumptions head_accept_iff.
 Print Assumptions head_accept_without_expected_peer.
@@ -305,3 +326,40 @@ Print Assumptions forged_head_cannot_move_latest.
 Print Assumptions c03_model_is_projection_of_composed.
 Check signed_head_sync_meets_c01_spec.
 Check forged_head_cannot_move_latest.
+
+(* ---- ties to the Gallina regenerated from the Go source (proofs/GenTie_C03.v) ---- *)
+From Coq Require Import ZArith NArith List Bool Lia String.
+From Lib Require Import Bytes Cid.
+From Model Require Import C03_SignedHead.
+From Proofs Require Import GenTie_Lib.
+From Gen Require Import Gen_Consts Gen_Funcs_prelude Gen_Funcs_head Gen_Funcs_ipnisync.
+Import ListNotations.
+Local Open Scope Z_scope.
+From Proofs Require Import GenTie_C03.
+
+Theorem gen_tie_Validate_payload : forall (c : cid) (t : option bytes),
+  head_Validate_payload (Cid.fmt c) t = FFall (payload c t).
+Proof. exact GenTie_C03.tie_Validate_payload. Qed.
+Print Assumptions gen_tie_Validate_payload.
+
+Theorem gen_tie_Sign_payload : forall (c : cid) (t : option bytes),
+  head_Sign_payload (Cid.fmt c) t = FFall (payload c t).
+Proof. exact GenTie_C03.tie_Sign_payload. Qed.
+Print Assumptions gen_tie_Sign_payload.
+
+Theorem gen_Validate_payload_no_panic : forall cb t, head_Validate_payload cb t <> FPanic.
+Proof. exact GenTie_C03.Validate_payload_no_panic. Qed.
+Print Assumptions gen_Validate_payload_no_panic.
+
+Theorem gen_tie_Validate_guards : forall sg pk : list N,
+  guard_class (head_Validate_guards pk sg) =
+  if is_nil sg then Some ENoSig else if is_nil pk then Some ENoKey else None.
+Proof. exact GenTie_C03.tie_Validate_guards. Qed.
+Print Assumptions gen_tie_Validate_guards.
+
+Theorem gen_tie_GetHead_signer_check : forall (signer : bytes) (expected : option bytes),
+  (forall e, expected = Some e -> e <> []) ->          (* a peer ID is never the empty string *)
+  signer_ok (ipnisync_GetHead_signer_check (match expected with Some e => e | None => [] end) signer)
+  = Some (match expected with None => true | Some e => Bytes.bytes_eqb signer e end).
+Proof. exact GenTie_C03.tie_GetHead_signer_check. Qed.
+Print Assumptions gen_tie_GetHead_signer_check.
